@@ -770,9 +770,12 @@ theorem M.seek_start_err_inv {n : Nat} {fa : Option Nat} {d d' : Dev} {e : ZErr}
       exact absurd hneg (by omega)
     · cases h
 
+/-- A successful `new_append` — under ANY fault index — leaves the sink untouched and positioned on the
+directory start, at least 22 bytes in front of the end of the input (since the D22 repair a failure of
+the repositioning seek is an error: `Ok` means the seek happened). -/
 theorem newAppend_position_bounded {fa : Option Nat} {d d' : Dev} {s : WState}
     (h : newAppend fa d = (.ok s, d')) :
-    d'.buf = d.buf ∧ d'.pos ≤ d.buf.length ∧ (fa = none → d'.pos + 22 ≤ d.buf.length) := by
+    d'.buf = d.buf ∧ d'.pos + 22 ≤ d.buf.length := by
   have hbuf := newAppend_readOnly.ok h
   refine ⟨hbuf, ?_⟩
   unfold newAppend at h
@@ -793,26 +796,10 @@ theorem newAppend_position_bounded {fa : Option Nat} {d d' : Dev} {s : WState}
       | error e => exact (M.throw_ok_inv h6).elim
       | ok v =>
         dsimp only at h6
-        rcases M.attempt_ok_inv h5 with ⟨a, ha, h5'⟩ | ⟨e, he, _⟩
-        · obtain ⟨_, b3, p3⟩ := M.seek_start_ok_inv h5'
-          obtain ⟨files, d4, h7, h8⟩ := M.bind_ok_inv h6
-          obtain ⟨b4, p4, l4⟩ := newAppend_loop_ok off n h7
-          obtain ⟨r2, d5, h9, h10⟩ := M.bind_ok_inv h8
-          obtain ⟨_, rfl⟩ := M.pure_ok_inv h10
-          have hl3 : d3.buf.length = d.buf.length := by rw [b3, b2, b1]
-          rcases M.attempt_ok_inv h9 with ⟨a2, _, h9'⟩ | ⟨e2, _, h9'⟩
-          · obtain ⟨_, _, p5⟩ := M.seek_start_ok_inv h9'
-            exact ⟨by omega, fun _ => by omega⟩
-          · obtain ⟨_, p5, hfa⟩ := M.seek_start_err_inv h9'
-            refine ⟨?_, fun hnone => (hfa hnone).elim⟩
-            by_cases hn : 0 < n
-            · have := l4 hn
-              omega
-            · have : n = 0 := by omega
-              subst this
-              unfold newAppend.loop at h7
-              obtain ⟨_, rfl⟩ := M.pure_ok_inv h7
-              omega
-        · cases he
+        obtain ⟨files, d4, h7, h8⟩ := M.bind_ok_inv h6
+        obtain ⟨r2, d5, h9, h10⟩ := M.bind_ok_inv h8
+        obtain ⟨_, rfl⟩ := M.pure_ok_inv h10
+        obtain ⟨_, _, p5⟩ := M.seek_start_ok_inv h9
+        omega
 
 end ZipVerif.Model
